@@ -72,13 +72,22 @@ theorem filter_edge {ms : List Module} {m : Module} {bf : BlockFilter} {j : Nat}
   apply List.mem_append_right
   rw [hbf]; simp [hj]
 
-theorem input_edge {ms : List Module} {m : Module} {k : InputK} {j : Nat}
-    (hk : some k ∈ m.inputs) (hne : k.refName ≠ []) (hj : lookupIdx k.refName ms = some j) :
+theorem input_edge_map {ms : List Module} {m : Module} {n : Str} {j : Nat}
+    (hk : some (InputK.map n) ∈ m.inputs) (hne : n ≠ []) (hj : lookupIdx n ms = some j) :
     j ∈ edgesOf ms m := by
   unfold edgesOf
   apply List.mem_append_left
   apply List.mem_filterMap.2
-  refine ⟨some k, hk, ?_⟩
+  refine ⟨some (.map n), hk, ?_⟩
+  simp [inputEdge, hne, hj]
+
+theorem input_edge_store {ms : List Module} {m : Module} {n : Str} {md : Int} {j : Nat}
+    (hk : some (InputK.store n md) ∈ m.inputs) (hne : n ≠ []) (hj : lookupIdx n ms = some j) :
+    j ∈ edgesOf ms m := by
+  unfold edgesOf
+  apply List.mem_append_left
+  apply List.mem_filterMap.2
+  refine ⟨some (.store n md), hk, ?_⟩
   simp [inputEdge, hne, hj]
 
 /-! ### hashModule -/
@@ -229,10 +238,10 @@ theorem dep_edge {ms : List Module} (hM : ModsOK ms) {m : Module} (hm : m ∈ ms
       | source t => simp at hik
       | map n =>
         simp at hik; subst hik
-        exact input_edge hi (by simpa [InputK.refName] using hne) (by simpa [InputK.refName] using hj)
+        exact input_edge_map hi hne hj
       | store n md =>
         simp at hik; subst hik
-        exact input_edge hi (by simpa [InputK.refName] using hne) (by simpa [InputK.refName] using hj)
+        exact input_edge_store hi hne hj
   · cases hbf : m.blockFilter with
     | none => rw [hbf] at h; simp at h
     | some bf =>
